@@ -455,6 +455,8 @@ def _helper_kind(fn):
         return "expr", body
     if not rets:
         return "proc", body
+    if isinstance(body[-1], ast.Return) and body[-1].value is not None and len(rets) == 1:
+        return "tail", body      # arbitrary statements, then the only return
     return None, body
 
 
@@ -569,6 +571,24 @@ class _Inliner:
                         out.extend(self.splice(h, m, st))
                         self.changed = True
                         continue
+            # helper with an arbitrary body and one trailing return, called as the whole
+            # right-hand side of an assignment, a return value or an expression statement
+            call = None
+            if isinstance(st, (ast.Assign, ast.Return, ast.Expr, ast.AugAssign)) \
+                    and isinstance(st.value, ast.Call):
+                call = st.value
+            if call is not None:
+                h = self.target(call)
+                if h and h[1] == "tail":
+                    m = _bind(h[0], call, h[3])
+                    if m is not None:
+                        body = self.splice((h[0], h[1], h[2][:-1], h[3]), m, st, keep=h[2][-1])
+                        ret = body.pop()
+                        st.value = ret.value
+                        out.extend(body)
+                        out.append(st)
+                        self.changed = True
+                        continue
             # expression helpers inside the statement's own expressions (not nested blocks)
             st = self.inline_exprs(st, pre)
             out.extend(pre)
@@ -579,8 +599,10 @@ class _Inliner:
         k = next(_counter)
         return {n: ast.Name(id=f"{n}__h{k}", ctx=ast.Load()) for n in _locals_of(body, params)}
 
-    def splice(self, h, m, at):
+    def splice(self, h, m, at, keep=None):
         fn, _kind, body, _ism = h
+        if keep is not None:
+            body = list(body) + [keep]
         pre = []
         mapping = {}
         for p, a in m.items():
